@@ -4,3 +4,6 @@ void h_verify(void) { TMCG_PublicKey *self; str_t *data; str_t s; s.data = 0; s.
 void h_decrypt(void) { TMCG_SecretKey *self; unsigned char *value; str_t s; s.data = 0; s.size = 0; s.cap = 0; s.absid = 0;
   _Bool r = TMCG_SecretKey__decrypt(self, value, s);
   __CPROVER_assert(!r, "REACHABILITY-CANARY (must fail): a successful decryption exists"); }
+void h_check(void) { TMCG_PublicKey *self; _Bool r = TMCG_PublicKey__check(self);
+  __CPROVER_assert(!r, "REACHABILITY-CANARY (must fail): an accepted key exists");
+  __CPROVER_assert(!(r && ghost_find_ret != (size_t)-1), "REACHABILITY-CANARY (must fail): an accepted NIZK key exists"); }
